@@ -55,7 +55,7 @@ def exec_hostile(job):
         reg = struct.pack("<HHII", 0x65, 4, 0, 0) + b"probe..." + struct.pack("<I", 0) + b"\x01\x00\x00\x00"
         lsv = struct.pack("<HHII", 0x04, 0, 0, 0) + b"probe..." + struct.pack("<I", 0)
         ev2 = vsock.session([reg + lsv], addr=("10.0.0.2", 4001))
-        others = [e["a"] for e in ev2] == ["recv", "proc", "send", "proc", "send", "eof", "close"] and dev.get_mem() == after
+        others = [e["a"] for e in ev2] == ["recv", "proc", "send", "proc", "send", "eof", "close", "conns-left"] and dev.get_mem() == after
     nbytes = sum(len(c) for c in chunks)
     return {"ev": ev, "before": mem0, "after": after, "others": others, "finished": finished and wall < 2.0 + 0.01 * nbytes,
             "wexp": wexp,
